@@ -143,6 +143,7 @@ def run_job(args):
         return out
 
     labels = Counter()
+    hook_counts = Counter()
     nt = set()
     allh = set()
     known_hits = Counter()
@@ -169,6 +170,19 @@ def run_job(args):
                 out["known_examples"].setdefault(k["id"], _small(case))
                 return
             raise
+        for ev_kind, ev in hooks.raw():
+            if ev_kind == "solve":
+                hook_counts[f"solve:{ev.get('solver')}:{ev.get('status')}"] += 1
+            elif ev_kind == "in_hull":
+                hook_counts[f"in_hull:{ev.get('path')}"] += 1
+            elif ev_kind == "batch":
+                hook_counts["batch:padded" if ev.get("padded") else "batch:full"] += 1
+            elif ev_kind == "range_of_solutions":
+                hook_counts["range:none-accepted" if ev.get("accepted") == 0 else "range:accepted"] += 1
+            elif ev_kind == "decomposition":
+                hook_counts[f"decomposition:{ev.get('stage')}"] += 1
+            else:
+                hook_counts[ev_kind] += 1
         if record:
             h = case_hash(case)
             allh.add(h)
@@ -252,6 +266,7 @@ def run_job(args):
         out["harness_error"] = traceback.format_exc()
 
     out["labels"] = dict(labels)
+    out["hook_counts"] = dict(hook_counts)
     out["nt_hashes"] = list(nt)
     out["all_hashes_n"] = len(allh)
     out["known_hits"] = dict(known_hits)
@@ -403,8 +418,16 @@ def main(argv=None):
             results = [run_job(j) for j in jobs]
         else:
             ctx = mp.get_context("fork")
+            budget = float(os.environ.get("VERIF_WALL_LIMIT", "1500" if a.tier == "quick" else "21600"))
             with ctx.Pool(nproc, maxtasksperchild=1) as pool:
-                results = list(pool.imap_unordered(run_job, jobs, chunksize=1))
+                it = pool.imap_unordered(run_job, jobs, chunksize=1)
+                try:
+                    for _ in range(len(jobs)):
+                        results.append(it.next(timeout=max(1.0, budget - (time.time() - t0))))
+                except mp.TimeoutError:
+                    # a time budget hit means inconclusive (exit 2), never a violation
+                    pool.terminate()
+                    harness_errors.append(f"wall-clock limit of {budget:.0f}s hit with {len(jobs) - len(results)} of {len(jobs)} jobs unfinished (inconclusive)")
 
     per_sub = {}
     nt_all = set()
@@ -412,6 +435,7 @@ def main(argv=None):
     samples = []
     evaluations = 0
     timed_out = 0
+    hook_total = Counter()
     exhaustive_subs = []
     for r in results:
         d = per_sub.setdefault(r["sub"], dict(evaluations=0, nontrivial=set(), distinct=0, labels=Counter(), wall=0.0, shards=0))
@@ -419,6 +443,7 @@ def main(argv=None):
         d["nontrivial"].update((r["sub"], h) for h in r["nt_hashes"])
         d["distinct"] += r["all_hashes_n"]
         d["labels"].update(r["labels"])
+        hook_total.update(r.get("hook_counts", {}))
         d["wall"] = max(d["wall"], r["wall"])
         d["shards"] += 1
         evaluations += r["evaluations"]
@@ -483,6 +508,7 @@ def main(argv=None):
                 },
                 replays_run=n_replays,
                 known_finding_hits=dict(known_seen),
+                hook_trace_summary=dict(sorted(hook_total.items())),
                 inconclusive_shards=timed_out,
                 harness_errors=len(harness_errors),
             ),
@@ -493,7 +519,7 @@ def main(argv=None):
         os.makedirs(os.path.join(VERIF, "evidence"), exist_ok=True)
         tmp = os.path.join(VERIF, "evidence", f"{pid}.json.tmp")
         with open(tmp, "w") as fh:
-            json.dump(ev, fh, indent=1, allow_nan=False, default=_json_default)
+            json.dump(_sanitize(ev), fh, indent=1, allow_nan=False, default=_json_default)
         os.replace(tmp, os.path.join(VERIF, "evidence", f"{pid}.json"))
 
     # 5. report
@@ -515,6 +541,19 @@ def main(argv=None):
     print(f"OK property={pid} tier={a.tier} seed={seed_val} evaluations={evaluations + n_replays} "
           f"distinct_nontrivial={len(nt_all)} wall={wall:.1f}s")
     return 0
+
+
+def _sanitize(o):
+    """non-finite floats are not valid JSON: write them as strings in the evidence"""
+    import math
+
+    if isinstance(o, float) and not math.isfinite(o):
+        return repr(o)
+    if isinstance(o, dict):
+        return {str(k): _sanitize(v) for k, v in o.items()}
+    if isinstance(o, (list, tuple)):
+        return [_sanitize(v) for v in o]
+    return o
 
 
 def _json_default(o):
